@@ -38,7 +38,7 @@ pub fn check(tier: Tier) -> Check {
         also_rel: true,
         property: "C16",
         level: "model_checking",
-        rule: "every event script (operation starts, acknowledgements, subscribe/stream/inbound message) up to the stated depth x polling discipline {wake-only, sweep of all tasks after every event, one spurious poll inserted at every position for every task} x {whole-packet, 1-byte, 2-, 3-, 5-byte re-chunked reads} x {accept-all, 1-byte, Pending-first, half-then-Pending writes}; scripts include two packets arriving in one read and a packet with a two-byte remaining length; evaluations counts single runs; non-trivial = a script in which at least one operation completed through an acknowledgement".into(),
+        rule: "every event script (operation starts, acknowledgements, subscribe/stream/inbound message) up to the stated depth x polling discipline {wake-only, sweep of all tasks after every event, one spurious poll inserted at every position for every task} x {whole-packet, 1-byte, 2-, 3-, 5-byte re-chunked reads} x {accept-all, 1-byte, Pending-first, half-then-Pending writes}; scripts include two packets arriving in one read and a packet with a two-byte remaining length; evaluations counts single runs; (C16/bulk) 17 .. 300 unfinished handshakes re-sent on a resumed session under three write modes; (C16/idle) 1.3 s of real time on a connection with a keep-alive, then spurious polls; non-trivial = a script in which at least one operation completed through an acknowledgement".into(),
         assumptions: vec!["conformant broker".into()],
         parts,
     }
